@@ -4,8 +4,11 @@
  *                                        init_wait: put_init()->wait() on the unstarted comm (the one-simcall path Comm::send)
  *   ["xget", mb, {init_wait}]            blocking get of a named comm into a variable of the actor's stack (like Mailbox::get<T>()): get_init()->
  *                                        set_dst_data()->start()->wait(), or with init_wait the one-simcall path Comm::recv
+ *   ["turn_sd", name, on]                turn a SPLITDUPLEX link (both directions) off / on (the core's turn_off looks up plain links only)
  *   ["sendto", src, dst, size]           Comm::sendto(src host, dst host, size): blocking host-to-host communication without mailbox
  *   ["sendto_async", src, dst, size, h]  Comm::sendto_async -> handle h (kind comm_send)
+ *   ["speed_info", host]                 {"speed","avail","on","pstate"} like the core's host_info without Host::get_load(), which segfaults under
+ *                                        cpu/optim:TI (no LMM constraint)
  *   ["is_on", "host"|"link", name]       state of a resource read inside a simcall
  *   ["pstate_speed", host, p]            Host::get_pstate_speed (hex)
  *   ["watts", host]                      {"pstate", "idle","epsilon","max" of the pstate in force, "now": sg_host_get_current_consumption} (hex floats; host_energy plugin)
@@ -15,7 +18,7 @@
 
 namespace vf {
 
-static const char* const fault_ext_version = "fault-ext-v1"; // `strings s4u_fault | grep fault-ext` tells which header was compiled
+static const char* const fault_ext_version = "fault-ext-v3"; // `strings s4u_fault | grep fault-ext` tells which header was compiled
 
 static bool fault_ops(Ctx& c, int idx, const json& op, json& result)
 {
@@ -44,6 +47,15 @@ static bool fault_ops(Ctx& c, int idx, const json& op, json& result)
     delete res;
     return true;
   }
+  if (o == "turn_sd") {
+    auto* l = sg4::SplitDuplexLink::by_name(op[1].get<std::string>());
+    if (op[2].get<bool>())
+      l->turn_on();
+    else
+      l->turn_off();
+    result = nullptr;
+    return true;
+  }
   if (o == "sendto") {
     sg4::Comm::sendto(host_by(op[1]), host_by(op[2]), static_cast<uint64_t>(op[3].get<double>()));
     result = nullptr;
@@ -58,6 +70,13 @@ static bool fault_ops(Ctx& c, int idx, const json& op, json& result)
     h.act     = comm;
     h.kind    = "comm_send";
     result    = nullptr;
+    return true;
+  }
+  if (o == "speed_info") {
+    auto* h = host_by(op[1]);
+    result  = simgrid::kernel::actor::simcall_answered([h]() {
+      return json{{"speed", hx(h->get_speed())}, {"avail", hx(h->get_available_speed())}, {"on", h->is_on()}, {"pstate", h->get_pstate()}};
+    });
     return true;
   }
   if (o == "is_on") {
